@@ -83,12 +83,47 @@ def _tail_returns_only(body: list[ast.stmt]) -> bool:
     return no_return([last])
 
 
+def _tailify(body: list[ast.stmt], cont: list[ast.stmt], budget: list[int]) -> list[ast.stmt] | None:
+    """Any if-structured body -> the same behaviour with returns in tail position only: what follows an `if` that may
+    return is copied to the end of each of its paths that falls through (loops / try / with containing a return: None)."""
+    if not body:
+        return [copy.deepcopy(x) for x in cont]
+    st, rest = body[0], body[1:]
+    budget[0] -= 1
+    if budget[0] < 0:
+        return None
+    if isinstance(st, ast.Return):
+        return [st]
+    if isinstance(st, ast.If) and any(isinstance(n, ast.Return) for n in ast.walk(st)):
+        k = _tailify(rest, cont, budget)
+        if k is None:
+            return None
+        yes = _tailify(st.body, k, budget)
+        no = _tailify(st.orelse, k, budget)
+        if yes is None or no is None:
+            return None
+        new = ast.If(test=st.test, body=yes or [ast.Pass()], orelse=no)
+        return [ast.copy_location(new, st)]
+    if any(isinstance(n, ast.Return) for n in ast.walk(st)):
+        return None
+    tail = _tailify(rest, cont, budget)
+    return None if tail is None else [st] + tail
+
+
 def _early_exit_form(body: list[ast.stmt]) -> list[ast.stmt] | None:
     """`if c: return X` guards followed by more code -> nested if/else with tail returns (behaviour preserving)."""
+    first = _early_exit_form_simple(body)
+    if first is not None:
+        return first
+    out = _tailify(body, [], [60])
+    return out if out is not None and _tail_returns_only(out) else None
+
+
+def _early_exit_form_simple(body: list[ast.stmt]) -> list[ast.stmt] | None:
     out: list[ast.stmt] = []
     for i, st in enumerate(body):
         if isinstance(st, ast.If) and not st.orelse and st.body and isinstance(st.body[-1], ast.Return) and not any(isinstance(n, ast.Return) for s in st.body[:-1] for n in ast.walk(s)):
-            rest = _early_exit_form(body[i + 1 :])
+            rest = _early_exit_form_simple(body[i + 1 :])
             if rest is None:
                 return None
             new = ast.If(test=st.test, body=st.body, orelse=rest or [ast.Pass()])
